@@ -77,7 +77,9 @@ prop("C10", "other", _GENERIC + "Proved: RFC 1982 Serial arithmetic and comparis
      "rollback never publishes, commit publishes exactly the version the transaction built and only if something changed, a reader "
      "only unregisters) relative to the zone's three entry points, which are under contract for the plain zone here and for the "
      "versioned zone under C11; Rdataset.add/update_ttl (TTL minimisation on merge, singleton replacement, refusal of foreign "
-     "records without any change). The content of zones after sequences of operations is bounded.",
+     "records without any change); _validate_name (every spelling of an owner name is mapped to the zone's one storage form, "
+     "names outside the zone are KeyError) with the lemma that the relative and the absolute spelling of one name give the same key. "
+     "The content of zones after sequences of operations is bounded.",
      assumptions=["A-hook: Transaction subclasses other than dns.zone.Transaction implement _end_transaction as told (assumed contract)"])
 prop("C11", "other", _GENERIC + "Discharged: the mechanical lock-discipline obligations of dns.versioned.Zone (readers pick and register "
      "their version under the lock); version retention on the real functions in a symbolic heap: _prune_versions_unlocked (only the "
@@ -98,7 +100,7 @@ prop("C13", "other", _GENERIC + "Proved: RFC 1982 Serial comparison used for 'se
      "transaction manager, transaction): commit is the last action, at most once, only after the final SOA and the rest of the "
      "message; every raised error (only the documented ones can be raised) leaves every transaction uncommitted; a replaced or "
      "finished transaction is never leaked; Inbound.__exit__ rolls back what is open. Quick tier: the AXFR half; thorough tier: "
-     "the full machine (about 5400 VCs). Convergence to the server's content is bounded.",
+     "the full machine (about 3800 VCs) with the exact conditions of SerialWentBackwards, UseTCP and TransferError. Convergence to the server's content is bounded.",
      assumptions=["A-stub: records, names and transactions seen by process_message satisfy the stub contracts in contracts/xfr.py "
                   "(name identity, in-zone predicate, content signature, a transaction that commits or raises without effect)"])
 prop("C14", "other", _GENERIC + "Proved: dns.tsig._digest feeds the HMAC exactly the RFC 8945 4.3 digest components (first and "
